@@ -1,4 +1,5 @@
 import QProofs.C10
+import QGen.C10
 import Mathlib.Analysis.Normed.Module.Convex
 /-!
 # C10 — constrained estimators return physical, consistent estimates: property theorems
@@ -48,6 +49,53 @@ theorem selection_keeps_installed (p : ProjSel) (si : SettingInfo) (opt : AlgoOp
 
 example : setConstraint none ⟨true, .eqIneq⟩ ⟨true, true, .ineqEq, some 100000⟩
     = .physical true .eqIneq (some 100000) := by decide
+
+/-! ## the same tables, regenerated from the source on every run (`harness/c10_translate.py` → `QGen/C10.lean`) -/
+
+/-- C10.gen_selection_table: the flag tests of the source's if/elif chain, in source order, install exactly the factories the
+model's `setConstraint` selects; the chain's three explicit tests plus the final `else` cover the four flag combinations; the
+early return for an installed projection is present. -/
+theorem gen_selection_table (si : SettingInfo) (o : Order) (mi : Option Nat) :
+    QGen.C10.selectionTable =
+      [(some (true, true), (setConstraint none si ⟨true, true, o, mi⟩).factoryName),
+       (some (true, false), (setConstraint none si ⟨true, false, o, mi⟩).factoryName),
+       (some (false, true), (setConstraint none si ⟨false, true, o, mi⟩).factoryName),
+       (none, (setConstraint none si ⟨false, false, o, mi⟩).factoryName)] ∧
+    QGen.C10.keepsInstalled = true := ⟨rfl, rfl⟩
+
+/-- C10.gen_physical_arguments: the physical-projection factory receives the template's parametrisation flag, the option's
+`mode_proj_order` and the option's `max_iteration_proj_physical` (not the optimiser's own iteration budget); the closure it
+returns forwards the flag and the iteration limit only — the projection order is dropped there. -/
+theorem gen_physical_arguments :
+    [QGen.C10.physicalOnParaSource, QGen.C10.physicalOrderSource, QGen.C10.physicalMaxIterSource] = physicalArgSources ∧
+    QGen.C10.physicalClosureKeywords = closureForwards ∧ QGen.C10.physicalClosureSources = closureForwards ∧
+    "mode_proj_order" ∉ QGen.C10.physicalClosureKeywords := by
+  decide
+
+/-- C10.gen_stop_modes: the strings accepted by the option constructor are exactly the four stopping modes of the model, in the
+model's order; each of the three `optimize` loops dispatches on exactly these strings in this order; defaults as modelled. -/
+theorem gen_stop_modes :
+    QGen.C10.stopModes.map StopMode.ofString? =
+      [some .singleDiffLoss, some .sumAbsDiffLoss, some .sumAbsDiffVar, some .sumAbsDiffProjGrad] ∧
+    QGen.C10.dispatchPgdb = QGen.C10.stopModes ∧ QGen.C10.dispatchPgdm = QGen.C10.stopModes ∧
+    QGen.C10.dispatchFista = QGen.C10.stopModes ∧
+    StopMode.ofString? QGen.C10.defaultStopMode = some .singleDiffLoss ∧ QGen.C10.defaultNumHistory = 1 := by
+  decide
+
+/-- C10.gen_proj_orders: accepted projection orders and the default. -/
+theorem gen_proj_orders :
+    QGen.C10.projOrders.map Drv.parseOrder? = [some .eqIneq, some .ineqEq] ∧
+    Drv.parseOrder? QGen.C10.defaultProjOrder = some .eqIneq := by
+  decide
+
+/-- C10.gen_line_search_constants: the line search starts at `α = 1` and halves (`backtrack … 1`, factor `1/(1+1)` in the
+model); `_is_doing_for_alpha` is `left_side > right_side`; the loop continues iff `value > eps`. -/
+theorem gen_line_search_constants :
+    QGen.C10.alphaStart = 1 ∧ QGen.C10.alphaFactor = 1 / (1 + 1) ∧
+    (QGen.C10.armijoOp, QGen.C10.armijoLeft, QGen.C10.armijoRight) = ("Gt", "left_side", "right_side") ∧
+    (QGen.C10.stopOp, QGen.C10.stopLeft, QGen.C10.stopRight, QGen.C10.stopThen, QGen.C10.stopElse)
+      = ("Gt", "value", "eps", true, false) := by
+  decide +kernel
 
 /-! ## projected linear estimator = physical projection ∘ linear estimate -/
 
